@@ -3,7 +3,7 @@
 patch=$1; tier=$2; shift 2
 cd /repo || exit 2
 git diff --quiet || { echo "/repo not clean"; exit 2; }
-git apply --3way "$patch" 2>/tmp/apply.err || git apply "$patch" 2>>/tmp/apply.err || { echo "PATCH DOES NOT APPLY"; cat /tmp/apply.err; git checkout -- . ; exit 3; }
+git apply "$patch" 2>/tmp/apply.err || git apply --3way "$patch" 2>>/tmp/apply.err || { echo "PATCH DOES NOT APPLY"; cat /tmp/apply.err; git reset -q --hard HEAD; exit 3; }
 git reset -q 2>/dev/null
 (export GOFLAGS=-mod=mod GOPROXY=off GOSUMDB=off; go build ./... ) || { echo "MUTANT DOES NOT BUILD"; git checkout -- .; git clean -fdq; exit 3; }
 cd /verif
